@@ -44,6 +44,8 @@ CLAIMED = {
          "Lean proof over the publish model composed with the queue model + differential correspondence (memory, SQLite)"),
  "C19": ("proof", "PARTIAL. Proved in Lean for every value and token sequence: the quoting layer of the formatter is inverted by the lexer (quote/unquoted/placeholder round trips, the exact gap {x} with the proof that the lexer cannot produce it, word and line joining). Not proved: the per-directive completeness of format.go against parser.go - decided by a differential oracle only (Parse/Format/Parse/Compile deep comparison + idempotence) over the repository's own configuration corpus (tests+docs, re-read from /repo each run) and token-level mutations of it. The proved layer is tied to the code by differential runs of the real lexer and quoting helpers", "§7 C19",
          "Lean proof of the lexer/quoting layer + differential correspondence; AST level differential only (stated in level text)"),
+ "C01": ("proof", "Lean: crash_safe - for every well-formed history of ingress fan-out, publish batches and ack/nack/dead-letter operations and EVERY crash point, the store recovered from the committed transactions satisfies the property predicate (acknowledged messages present exactly once per target, no duplicates, publish batches all-or-nothing, no message nobody sent, states explained, acknowledged lease operations not undone), with negative witnesses (respond-before-commit and split-publish handlers violate it) and the code's ordering facts regenerated from source; tie: real SIGKILL of a child process running the real handlers on the real SQLite store at every hook point and at arbitrary instants, with store-refusal injection; reopened with the real store, integrity_check, everything due dequeued, crashCheck evaluated and the content matched against the model's recoveries", "§7 C01",
+         "Lean proof over a transactional crash model + regenerated ordering facts + real process-kill enumeration"),
 }
 NOTE = "Trusted: Lean kernel (axioms propext/Classical.choice/Quot.sound only, audited each run), the hand-written model, the Go correspondence harness and generators (ours), Go stdlib, SQLite engine. PostgreSQL not executable here."
 
